@@ -100,6 +100,11 @@ fn compare_hint_recovery(e: &mut Eng, ctx: &Ctx, case: u64, out: &mut Out) -> Re
     let hints = scan::scan_dir(&e.dir);
     let hint_entries: u64 = hints.values().filter_map(|f| f.hint.as_ref()).map(|h| h.0.len() as u64).sum();
     let hint_files = hints.values().filter(|f| f.hint.is_some()).count() as u64;
+    if std::env::var_os("BCVERIF_VERBOSE").is_some() {
+        for (id, f) in &hints {
+            eprintln!("   file {} size {} recs {:?} tail {:?} hint {:?}", id, f.size, f.recs.iter().map(|r| (r.pos, r.len, show(&r.key), r.value.as_ref().map(|v| v.len()))).collect::<Vec<_>>(), f.tail, f.hint.as_ref().map(|h| (h.0.iter().map(|x| (x.pos, x.len, show(&x.key))).collect::<Vec<_>>(), h.2)));
+        }
+    }
     let a = ctx.scratch.join(format!("c{}-with", case));
     let b = ctx.scratch.join(format!("c{}-without", case));
     copy_dir(&e.dir, &a, None);
@@ -281,6 +286,34 @@ fn episode(ctx: &Ctx, f: Focus, case: u64, out: &mut Out) -> Result<(), (Fail, S
             if x < merge_pct {
                 match f {
                     Focus::C13 => merge_with_size_oracle(&mut e, ctx, case, out)?,
+                    Focus::C12 if case % 5 == 2 && e.r.chance(1, 2) => {
+                        // a merge during which one call on a hint file fails (create, write or
+                        // fsync): whatever the merge makes of that, the closed store must still
+                        // recover the same with and without its hint files
+                        e.trace.push("merge with a failing hint-file call".into());
+                        crate::shim::log_reset();
+                        crate::shim::record_data(false);
+                        crate::shim::watch(Some(&e.dir));
+                        let nth = e.r.below(8) as i64;
+                        crate::shim::fail(crate::shim::C_WRITE | crate::shim::C_CREATE | crate::shim::C_FSYNC, crate::shim::F_HINT, nth, libc::ENOSPC);
+                        let res = e.st().merge();
+                        let hit = crate::shim::fail_hit().is_some();
+                        crate::shim::fail_off();
+                        crate::shim::watch(None);
+                        if std::env::var_os("BCVERIF_VERBOSE").is_some() {
+                            eprintln!("merge with failing hint call -> {:?}", res);
+                            for ev in crate::shim::take_log(&e.dir, false) {
+                                if ev.kind != crate::shim::K_CLOSE && ev.kind != crate::shim::K_MMAP {
+                                    eprintln!("   {}", ev.brief());
+                                }
+                            }
+                        }
+                        crate::shim::log_reset();
+                        out.count(if hit { "merges_with_a_failed_hint_call" } else { "merges_armed_but_fault_not_reached" }, 1);
+                        let _ = res;
+                        e.check_all("after a merge with a failing hint-file call")?;
+                        compare_hint_recovery(&mut e, ctx, case, out)?;
+                    }
                     _ => {
                         e.check_all("before merge")?;
                         let info = e.do_merge()?;
